@@ -17,6 +17,7 @@ CONFIG = {
     "C20": dict(gen=["Registry"], drivers=["Registry"]),
     "C11": dict(gen=["Models"], drivers=["ModelsF", "SpreadPoint"], extra_prop_files=["PgVerif/Tie/Models.lean"]),
     "C02": dict(gen=["Units"], drivers=["IsoState"]),
+    "C03": dict(gen=["Units"], drivers=["Access"]),
     "C10": dict(gen=["Models"], drivers=["ModelsF"], extra_prop_files=["PgVerif/Tie/Models.lean"]),
 }
 
